@@ -33,6 +33,7 @@ TOLERANCES = {"permutation-default": 0.1,     # [6.5e-3] of the peak field
               "rotation-default": 1e-5,       # [3.6e-8]
               "rotation-tight": 1e-5,         # [7.1e-8]
               "one-sphere-vs-mie": 6e-3,      # [2.0e-4]
+              "weak-coupling": 0.3,           # [1.6e-2]
               "auto-vs-explicit": "bit-identical"}
 TIMEOUT = 900
 
@@ -75,7 +76,41 @@ def cases(tier, seed):
     for i in range(len(RULE_CASES)):
         out.append({"id": "rule:%s" % RULE_CASES[i][0], "kind": "rule",
                     "i": i})
+    for i in range(len(WEAK)):
+        out.append({"id": "weak-coupling#%d" % i, "kind": "weak", "i": i})
     return out
+
+
+# two small spheres far apart, observed on a distant plane: multiple
+# scattering is negligible, so the cluster solution must approach the
+# superposition of the two single-sphere solutions (an anchor that fixes the
+# orientation of the cluster along the optical axis, which the symmetry
+# checks cannot see).  Floor on the unchanged tree 1.6e-2.
+WEAK = [(0.1, 1.45, (1.5, 0.4, 2.0)), (0.1, 1.45, (6.0, 2.0, 8.0)),
+        (0.12, 1.59, (-2.0, 1.0, -3.0))]
+
+
+def _run_weak(case, ck):
+    from holopy.scattering import Multisphere, Mie, Sphere, Spheres
+    r, n, sep = WEAK[case["i"]]
+    c1 = (0.2, 0.1, 5.0)
+    c2 = (c1[0] + sep[0], c1[1] + sep[1], c1[2] + sep[2])
+    P = np.array([[0, 0, -40.0], [5, 2, -40.0], [-8, 3, -40.0],
+                  [12, -9, -40.0]])
+    det = H.det_points(P)
+    with warnings.catch_warnings():
+        warnings.simplefilter("ignore")
+        s = Spheres([Sphere(n=n, r=r, center=c1), Sphere(n=n, r=r,
+                                                         center=c2)])
+    a = _field(det, s, Multisphere(**TIGHT))
+    b = _field(det, s, Mie(False, True))
+    ck.trans += 2
+    e = float(np.abs(a - b)[:, :2].max() / np.abs(b).max())
+    ck.metric("weak-coupling", e)
+    ck.true("weak-coupling-limit", e <= 0.3, "two small spheres %r apart: "
+            "the cluster solution differs from the superposition of the "
+            "single-sphere solutions by %.2e on a distant plane" % (sep, e))
+    return digest(fp_values(a))
 
 
 def _spheres(sub, order=None, R=None, pivot=None):
@@ -380,5 +415,5 @@ def _run_rule(case, ck):
 def run_case(case):
     ck = Checker()
     fp = {"perm": _run_perm, "bigperm": _run_bigperm, "rot": _run_rot,
-          "rule": _run_rule}[case["kind"]](case, ck)
+          "rule": _run_rule, "weak": _run_weak}[case["kind"]](case, ck)
     return ck.result(fp=fp)
